@@ -230,10 +230,13 @@ def total_mass(spec):
     return total
 
 
-def write_gro(path, atoms, box, title="supplied"):
-    """atoms: list of (resid, resname, name, xyz)"""
+def write_gro(path, atoms, box, title="supplied", restart=None):
+    """atoms: list of (resid, resname, name, xyz); restart=k: the atom-number column starts again at 1 every k
+    atoms (several single-molecule files pasted together) - the column carries no meaning for a reader"""
     lines = [title, str(len(atoms))]
     for i, (resid, resname, name, xyz) in enumerate(atoms, start=1):
+        if restart:
+            i = (i - 1) % restart + 1
         lines.append(f"{resid % 100000:5d}{resname[:5]:<5s}{name[:5]:>5s}{i % 100000:5d}{xyz[0]:8.3f}{xyz[1]:8.3f}{xyz[2]:8.3f}")
     lines.append(" ".join(f"{b:.5f}" for b in box))
     Path(path).write_text("\n".join(lines) + "\n")
@@ -333,7 +336,7 @@ def run_gen_coords(spec, ctx, timeout=15, kwargs_extra=None, before_build=None, 
             write_pdb(cpath, [tuple(a) for a in coords["atoms"]], coords["box"] if coords.get("cryst", True) else None)
         else:
             cpath = ctx.dir / "input.gro"
-            write_gro(cpath, [tuple(a) for a in coords["atoms"]], coords["box"])
+            write_gro(cpath, [tuple(a) for a in coords["atoms"]], coords["box"], restart=coords.get("restart"))
         if coords["mode"] == "c":
             kwargs["coordpath"] = cpath
         else:
